@@ -6,6 +6,7 @@ package main
 import (
 	"fmt"
 	"sort"
+	"strconv"
 	"time"
 
 	"github.com/brocaar/lorawan"
@@ -182,6 +183,7 @@ func (c *ctx) applyRandomOp(b band.Band, n int, chans []band.VerifChannel, maxCh
 			mx = mn + c.rnd.Intn(4)
 		}
 		ev["op"] = "add"
+		ev["rawf"] = strconv.FormatUint(uint64(f), 10) // as text: 2.4 GHz does not fit the TLC integer range
 		ev["f"] = freqVal(f)
 		ev["min"] = mn
 		ev["max"] = mx
@@ -198,6 +200,21 @@ func (c *ctx) applyRandomOp(b band.Band, n int, chans []band.VerifChannel, maxCh
 		ev["code"] = codeErr(func() error { return b.EnableUplinkChannelIndex(i) })
 	}
 	return ev
+}
+
+// applyOpDesc re-applies an operation described by an event of applyRandomOp to another band object
+func applyOpDesc(b band.Band, ev M) {
+	observeFast(func() error {
+		switch ev["op"] {
+		case "add":
+			f, _ := strconv.ParseUint(ev["rawf"].(string), 10, 32)
+			return b.AddChannel(uint32(f), ev["min"].(int), ev["max"].(int))
+		case "disable":
+			return b.DisableUplinkChannelIndex(ev["i"].(int))
+		default:
+			return b.EnableUplinkChannelIndex(ev["i"].(int))
+		}
+	})
 }
 
 func (c *ctx) history(name band.Name, nops int) error {
